@@ -82,12 +82,13 @@ pub(crate) const E_SCRATCH: u8 = 14;
 pub(crate) const E_READER_RESET: u8 = 15;
 pub(crate) const E_WRITE_ALL: u8 = 16; // contract A3
 pub(crate) const E_STEP: u8 = 17; // contract A1
-pub(crate) static mut LOG: [u8; 24] = [0; 24];
+pub(crate) const LOGCAP: usize = 12;
+pub(crate) static mut LOG: [u8; LOGCAP] = [0; LOGCAP];
 pub(crate) static mut LOG_N: usize = 0;
 
 pub(crate) fn log(e: u8) {
     unsafe {
-        if LOG_N < 24 {
+        if LOG_N < LOGCAP {
             LOG[LOG_N] = e;
         }
         LOG_N += 1;
@@ -98,7 +99,7 @@ pub(crate) fn log(e: u8) {
 pub(crate) fn first(e: u8) -> usize {
     unsafe {
         let mut i = 0;
-        while i < 24 {
+        while i < LOGCAP {
             if i < LOG_N && LOG[i] == e {
                 return i;
             }
@@ -111,7 +112,7 @@ pub(crate) fn count(e: u8) -> usize {
     let mut n = 0;
     unsafe {
         let mut i = 0;
-        while i < 24 {
+        while i < LOGCAP {
             if i < LOG_N && LOG[i] == e {
                 n += 1;
             }
@@ -125,7 +126,7 @@ pub(crate) fn last_before(e: u8, pos: usize) -> usize {
     let mut r = usize::MAX;
     unsafe {
         let mut i = 0;
-        while i < 24 {
+        while i < LOGCAP {
             if i < LOG_N && i < pos && LOG[i] == e {
                 r = i;
             }
